@@ -133,3 +133,23 @@ Example C02_string_layer_instance :
      end.
 Proof. vm_compute. repeat split. discriminate. Qed.
 Print Assumptions C02_string_layer_instance.
+
+(* ---- Proofs.BridgeFacts ---- *)
+From Coq Require Import List Bool NArith ZArith Arith.
+From BV Require Import Lib.PyStr Lib.Regex Model.V2 Model.PatAst Model.PatParse Proofs.RegexFacts Proofs.BridgeFacts.
+Import ListNotations.
+Theorem C02_part_sep_ok_b_sound : forall (v : vinfo) (n rest : list N), part_sep_ok_b v n rest = true -> part_sep_ok v n rest.
+Proof. exact part_sep_ok_b_sound. Qed.
+Print Assumptions C02_part_sep_ok_b_sound.
+
+Theorem C02_sep_ok_b_sound : forall (v : vinfo) (p : pat) (tail : list N), sep_ok_b v p tail = true -> sep_ok v p tail.
+Proof. exact sep_ok_b_sound. Qed.
+Print Assumptions C02_sep_ok_b_sound.
+
+Theorem C02_sep_ok_b_roundtrip : forall (v : vinfo) (p : pat), sep_ok_b v p [] = true -> re_match (comp p) (fmt v p) = Some (envof v p, []).
+Proof. exact sep_ok_b_roundtrip. Qed.
+Print Assumptions C02_sep_ok_b_roundtrip.
+
+Theorem C02_bridge_ok_spec : forall (v : vinfo) (s : list N), bridge_ok v s = true -> exists p : pat, parse_pat s = Some p /\ print p = s /\ sep_ok v p [] /\ format_version v s = Some (render v p) /\ re_match (comp p) (fmt v p) = Some (envof v p, []) /\ (exists r : re, compile_pattern_re s = Some r /\ re_match r (fmt v p) = Some (envof v p, [])).
+Proof. exact bridge_ok_spec. Qed.
+Print Assumptions C02_bridge_ok_spec.
